@@ -460,3 +460,20 @@ Example C06_options_examples :
   opt_weight true (Fin 0) (Fin (Q2Qc 3)) (Fin (Q2Qc 5)) = Fin (bad_weight * Q2Qc 5)%Qc /\
   gen_weights_divided true false = true /\ gen_weights_divided true true = false /\ gen_weights_divided false true = false.
 Proof. exact ex_weight_classes. Qed.
+
+(* --- a store that serves views of arrays it owns (DictChunkStore) --- *)
+(* Trailing dumps missing from an array held by such a store: asked for the chunks of the aligned chunk list (the chunks
+   that were written ++ one-dump phantom chunks) the store FINDS every written chunk and reports every phantom chunk as
+   not found - never as a malformed chunk - so the getters of C06_absent_chunks_never_raise apply (finding C06-F2, fixed:
+   NumPy slicing beyond the end silently gave an empty array and the load raised BadChunk). *)
+Theorem C06_view_store_trailing_dumps_not_found : forall t k j rest_shape rest_sl,
+  allpos t -> (j < List.length t + k)%nat -> dict_get_chunk rest_shape rest_sl = Found ->
+  dict_get_chunk (zsum t :: rest_shape) (chunk_slice (t ++ repeat 1 k) j :: rest_sl) =
+  if Nat.ltb j (List.length t) then Found else NotFound.
+Proof. exact dict_store_dump_axis. Qed.
+Print Assumptions C06_view_store_trailing_dumps_not_found.
+Example C06_view_store_examples :
+  dict_get_chunk [3; 4] [(2, 3); (0, 4)] = Found /\ dict_get_chunk [3; 4] [(3, 4); (0, 4)] = NotFound /\
+  dict_get_chunk [3; 4] [(2, 4); (0, 4)] = Malformed /\ dict_get_chunk [3; 4] [(1, 1); (4, 4)] = Found /\
+  chunk_slice ([2; 1] ++ repeat 1 2) 3 = (4, 5).
+Proof. exact ex_dict_store. Qed.
